@@ -81,7 +81,13 @@ pub fn new_cli(r: &mut Rng, srv: &Srv, client_id: u64, addr: SocketAddr, timeout
     } else {
         mint_for(r, srv, client_id, timeout, expire_s)
     };
-    Cli::new(srv.now, m, addr)
+    // the client's own clock does not share an origin with the server's in a third of the cases
+    let client_clock = match r.below(6) {
+        0 => Duration::from_millis(r.below(5000)),
+        1 => srv.now + Duration::from_secs(3600 + r.below(1_000_000)),
+        _ => srv.now,
+    };
+    Cli::new(client_clock, m, addr)
 }
 
 /// The (unsealed) connection request datagram a client would send for this token.
